@@ -63,6 +63,11 @@ impl Interval {
     pub fn has_nan(&self) -> bool {
         self.lower.is_nan() || self.upper.is_nan()
     }
+    /// Returns `true` if either bound of the interval is infinite
+    #[inline]
+    fn has_inf(&self) -> bool {
+        self.lower.is_infinite() || self.upper.is_infinite()
+    }
     /// Calculates the absolute value of the interval
     #[inline]
     pub fn abs(self) -> Self {
@@ -134,7 +139,8 @@ impl Interval {
     /// Computes the sine of the interval
     #[inline]
     pub fn sin(self) -> Self {
-        if self.has_nan() {
+        if self.has_nan() || self.has_inf() {
+            // sin(+-inf) is NaN
             f32::NAN.into()
         } else if self.width() >= TAU {
             Interval::new(-1.0, 1.0)
@@ -186,7 +192,8 @@ impl Interval {
     /// Computes the cosine of the interval
     #[inline]
     pub fn cos(self) -> Self {
-        if self.has_nan() {
+        if self.has_nan() || self.has_inf() {
+            // cos(+-inf) is NaN
             f32::NAN.into()
         } else if self.width() >= TAU {
             Interval::new(-1.0, 1.0)
@@ -484,7 +491,12 @@ impl Interval {
     #[inline]
     pub fn rem_euclid(&self, other: Interval) -> Self {
         // TODO optimize this more?
-        if self.has_nan() || other.has_nan() || other.contains(0.0) {
+        if self.has_nan()
+            || other.has_nan()
+            || other.contains(0.0)
+            || self.has_inf()
+        {
+            // (an infinite dividend has no remainder: the point result is NaN)
             f32::NAN.into()
         } else if other.lower == other.upper && other.lower > 0.0 {
             let a = self.lower / other.lower;
